@@ -4,6 +4,7 @@ import (
 	"bytes"
 	"math"
 	"slices"
+	"strconv"
 	"strings"
 
 	"fortio.org/log"
@@ -201,7 +202,23 @@ func (s *State) evalPostfixExpression(node *ast.PostfixExpression) object.Object
 // Doesn't unwrap return - return bubbles up.
 // Initially this was the one to use internally recursively, except for when evaluating a function
 // but now it's less clear because of the need to unwrap references too. TODO: fix/clarify.
-func (s *State) evalInternal(node any) object.Object { //nolint:funlen,gocognit,gocyclo // quite a lot of cases.
+func (s *State) evalInternal(node any) object.Object {
+	// All the Go level recursion of the evaluator goes through here.
+	if s.nesting >= MaxNesting {
+		s.tooNested()
+	}
+	s.nesting++
+	res := s.evalNode(node)
+	s.nesting--
+	return res
+}
+
+// Same recoverable panic as the MaxDepth one in Eval (state must be Reset() afterwards).
+func (s *State) tooNested() {
+	panic("max depth reached: evaluation nested " + strconv.Itoa(MaxNesting) + " deep")
+}
+
+func (s *State) evalNode(node any) object.Object { //nolint:funlen,gocognit,gocyclo // quite a lot of cases.
 	if s.Context != nil && s.Context.Err() != nil {
 		return s.Error(s.Context.Err())
 	}
